@@ -146,12 +146,14 @@ make_storage (vimg_t *v, long size, int high, vrng_t *rng)
     v->overflow = 0;
 }
 
+static int force_min_stride;      /* next image: no padding word (rows are contiguous) */
+
 static pixman_image_t *
 make_image (int slot, pixman_format_code_t fmt, int w, int h, int neg, int mode, vrng_t *rng)
 {
     vimg_t *v = &imgs[slot];
     int bpp = PIXMAN_FORMAT_BPP (fmt);
-    long stride = (((long)w * bpp + 31) / 32 + (long)vrng_below (rng, 2)) * 4;
+    long stride = (((long)w * bpp + 31) / 32 + (force_min_stride ? 0 : (long)vrng_below (rng, 2))) * 4;
     long size = stride * h;
     uint32_t *bits;
     if (size == 0) size = 4;
@@ -280,7 +282,10 @@ main (int argc, char **argv)
 	    vrng_seed (&rng, (uint64_t)f[k++]);
 	    tk = (int)f[k++];
 	    nimgs = 0;
+	    force_min_stride = (tk & 8) != 0;
+	    tk &= 7;
 	    dst = make_image (nimgs++, dfmt, dw, dh, 0, mode, &rng);
+	    force_min_stride = 0;
 	    fprintf (vt_out, "{\"e\":\"Req\",\"n\":%d,\"kind\":\"T\",\"mode\":%d,\"dw\":%d,\"dh\":%d,\"ok\":%s}\n", reqno, mode, dw, dh, dst ? "true" : "false");
 	    fflush (vt_out);
 	    if (dst)
